@@ -8,12 +8,30 @@ from . import tlc
 from .core import MachineryFailure
 
 
+CHUNK = 20000
+
+
 def validate(chk, module, traces, constants="", name=None, workers=8, timeout=1800, spec="TraceSpec", java_opts=()):
     """traces: list of {"id": str|int, "cfg": {...}, "ev": [events]}.
     Returns (rejections, drifts): dicts id -> (position, [clauses]).
     Raises MachineryFailure if TLC did not demonstrably process every trace."""
     if not traces:
         return {}, {}
+    if len(traces) > CHUNK:
+        # TLC enumerates the traces as initial states, sequentially: large batches are cut into chunks that are
+        # validated by parallel TLC processes (same verdicts; one tlc_run entry per chunk)
+        import concurrent.futures as cf
+        parts = [traces[i:i + CHUNK] for i in range(0, len(traces), CHUNK)]
+        w = max(2, min(workers, 16 // min(len(parts), 4)))
+        rej, drift = {}, {}
+        with cf.ThreadPoolExecutor(4) as ex:
+            futs = [ex.submit(validate, chk, module, part, constants, "%s [part %d/%d]" % (name or ("TV:" + module), k + 1, len(parts)), w, timeout, spec, java_opts)
+                    for k, part in enumerate(parts)]
+            for f in futs:
+                r, d = f.result()
+                rej.update(r)
+                drift.update(d)
+        return rej, drift
     wd = tlc.scratch("tv")
     try:
         path = os.path.join(wd, "traces.json")
